@@ -79,7 +79,7 @@ def model_line(c):
     ho, he = hidden_flags(c)
     flags = ",".join(str(int(x)) for x in (c["has_in"], c["has_t"], c["warn"], c["pty"])) + \
         ",%d,%d,%d,%d,%d,%d,%d,%d" % (c["echo_opt"], int(c["in_tty"]), int(c["hold"]), int(c["start_fails"]), c["read_size"], int(ho), int(he),
-                                      int(c.get("async", False)))
+                                      int(c.get("async", False))) + ",%d" % c.get("joins", 1)
     ins = ",".join("~" if x == "~" else "$" if x == "$" else hexs(x.encode()) for x in (c["ins"] or []))
     return "|".join([flags, ",".join(c["out"]), ",".join(c["err"]), ins, ",".join(c["sched"])])
 
@@ -95,31 +95,33 @@ def run_impl(c):
     return gate.run_schedule(c["sched"], out=[binascii.unhexlify(x) for x in c["out"]],
                              err=[binascii.unhexlify(x) for x in c["err"]], in_script=in_script, in_tty=c["in_tty"],
                              pty=c["pty"], hold_open=c["hold"], start_fails=c["start_fails"], read_size=c["read_size"],
-                             explicit_streams=c.get("explicit", True), asynchronous=c.get("async", False), **kw)
+                             explicit_streams=c.get("explicit", True), asynchronous=c.get("async", False), joins=c.get("joins", 1), **kw)
 
 
 def codes(s):
     return ".".join(str(ord(ch)) for ch in s)
 
 
+def outcome_of(c, r):
+    if r is None:
+        return "pending"
+    if r[0] == "return":
+        return "return:%d" % r[3]
+    name = r[1]
+    if name in ("CommandTimedOut", "UnexpectedExit"):
+        return "raise:%s:%d" % (name, r[4])
+    if name == "ThreadException":
+        return "raise:ThreadException"
+    if name == "OSError" and c["start_fails"]:
+        return "raise:StartFailed"
+    return "raise:" + name
+
+
 def impl_obs(c, o):
     """canonical observation tuple of the implementation, aligned with the driver's output fields"""
-    r = o.get("result")
-    if r is None:
-        outcome = "pending"
-    elif r[0] == "return":
-        outcome = "return:%d" % r[3]
-    else:
-        name = r[1]
-        if name in ("CommandTimedOut", "UnexpectedExit"):
-            outcome = "raise:%s:%d" % (name, r[4])
-        elif name == "ThreadException":
-            outcome = "raise:ThreadException"
-        elif name == "OSError" and c["start_fails"]:
-            outcome = "raise:StartFailed"
-        else:
-            outcome = "raise:" + name
+    outcome = outcome_of(c, o.get("result"))
     return {
+        "earlier": ";".join(outcome_of(c, r) for r in o.get("earlier_results", [])),
         "outcome": outcome,
         "stdout": codes(o["cap"][0]), "stderr": codes(o["cap"][1]),
         "child_stdin": hexs(o["child_stdin"]), "closes": str(o["closes"]), "kills": str(o["kills"]),
@@ -131,13 +133,13 @@ def impl_obs(c, o):
 
 def model_obs(line_out):
     f = line_out.split("|")
-    if len(f) != 14:
+    if len(f) != 15:
         return {"bad": line_out}
-    return {"mirror_out": f[12], "mirror_err": f[13], "outcome": f[0], "stdout": f[3], "stderr": f[4], "child_stdin": f[5], "closes": f[6], "kills": f[7],
+    return {"earlier": f[14], "mirror_out": f[12], "mirror_err": f[13], "outcome": f[0], "stdout": f[3], "stderr": f[4], "child_stdin": f[5], "closes": f[6], "kills": f[7],
             "kills_after_return": f[8], "main": f[10], "alive": f[11], "echoed": f[9], "cap_out_hex": f[1], "cap_err_hex": f[2]}
 
 
-COMPARED = ["outcome", "stdout", "stderr", "child_stdin", "closes", "kills", "kills_after_return", "main", "alive"]
+COMPARED = ["outcome", "earlier", "stdout", "stderr", "child_stdin", "closes", "kills", "kills_after_return", "main", "alive"]
 
 
 def run_cases(ctx, out, cases, oracle=None):
